@@ -2,6 +2,7 @@ package engine
 
 import (
 	"io"
+	"math"
 	"strconv"
 	"strings"
 )
@@ -14,9 +15,10 @@ func (f Float) number() {}
 // WriteTerm outputs the Float to an io.Writer.
 func (f Float) WriteTerm(w io.Writer, opts *WriteOptions, _ *Env) error {
 	ew := errWriter{w: w}
-	openClose := opts.left.name == atomMinus && opts.left.specifier.class() == operatorClassPrefix && f >= 0
+	negative := math.Signbit(float64(f)) // -0.0 is written with a sign, too.
+	openClose := opts.left.name == atomMinus && opts.left.specifier.class() == operatorClassPrefix && !negative
 
-	if openClose || (opts.left != operator{} && (f < 0 || letterDigit(opts.left.name))) {
+	if openClose || (opts.left != operator{} && (negative || letterDigit(opts.left.name))) {
 		_, _ = ew.Write([]byte(" "))
 	}
 
